@@ -44,6 +44,96 @@ func unsoundClass(a, b lat.Ty, v lat.Val) string {
 	return "unsound-" + lat.Head(a) + "-" + lat.Head(b)
 }
 
+// slotTy: the type a positional type (Array / Tuple) declares for position i; ok = false when it declares none.
+func slotTy(t lat.Ty, i int) (lat.Ty, bool) {
+	switch t.K {
+	case "arr":
+		return t.Ts[0], true
+	case "tup":
+		if len(t.Ts) == 0 {
+			return lat.Ty{}, false
+		}
+		if i >= len(t.Ts) {
+			i = len(t.Ts) - 1
+		}
+		return t.Ts[i], true
+	}
+	return lat.Ty{}, false
+}
+
+// subTriples lists the (A', B', V') the soundness of (A, B, V) is made of when A and B have the same shape: positions of
+// Array / Tuple against the elements of an array value, key and value types of two Hash types against the entries, the content of
+// two Sensitive types, the members of a Variant receiver, the content of Optional / NotUndef on either side.
+func subTriples(a, b lat.Ty, v lat.Val) [][3]interface{} {
+	var out [][3]interface{}
+	add := func(x, y lat.Ty, w lat.Val) { out = append(out, [3]interface{}{x, y, w}) }
+	switch a.K {
+	case "var":
+		for _, m := range a.Ts {
+			add(m, b, v)
+		}
+	case "opt", "nu", "alias":
+		add(a.Ts[0], b, v)
+	}
+	switch b.K {
+	case "var":
+		for _, m := range b.Ts {
+			add(a, m, v)
+		}
+	case "opt", "nu", "alias":
+		add(a, b.Ts[0], v)
+	}
+	if v.K == "a" {
+		for i, e := range v.Vs {
+			x, ok1 := slotTy(a, i)
+			y, ok2 := slotTy(b, i)
+			if ok1 && ok2 {
+				add(x, y, e)
+			}
+		}
+	}
+	if v.K == "h" && a.K == "hash" && b.K == "hash" {
+		for _, e := range v.Es {
+			add(a.Ts[0], b.Ts[0], e.K)
+			add(a.Ts[1], b.Ts[1], e.V)
+		}
+	}
+	if v.K == "sv" && a.K == "sens" && b.K == "sens" {
+		add(a.Ts[0], b.Ts[0], v.Vs[0])
+	}
+	return out
+}
+
+// soundCulprit descends from a failing (A, B, V) to a smallest failing sub-triple, evaluated on the implementation, so that an
+// unsound rule gets one class wherever it is nested (e.g. Type[X] ⊒ Type[Y] ∋ u below Array ⊒ Tuple is still `type-type`).
+func soundCulprit(env *lat.Env, a, b lat.Ty, v lat.Val) (lat.Ty, lat.Ty, lat.Val) {
+	fails := func(x, y lat.Ty, w lat.Val) bool {
+		tx, e1 := env.BuildCtor(x)
+		ty, e2 := env.BuildCtor(y)
+		vw, e3 := env.BuildVal(w)
+		if e1 != nil || e2 != nil || e3 != nil {
+			return false
+		}
+		bad := false
+		lat.Safely(func() { bad = px.IsAssignable(tx, ty) && px.IsInstance(ty, vw) && !px.IsInstance(tx, vw) })
+		return bad
+	}
+	for depth := 0; depth < 32; depth++ {
+		found := false
+		for _, t := range subTriples(a, b, v) {
+			x, y, w := t[0].(lat.Ty), t[1].(lat.Ty), t[2].(lat.Val)
+			if fails(x, y, w) {
+				a, b, v, found = x, y, w, true
+				break
+			}
+		}
+		if !found {
+			break
+		}
+	}
+	return a, b, v
+}
+
 func exec(c px.Context, op string, args []sx.Sexp) core.Result {
 	if res, ok := lat.ExecTier2(c, op, args); ok {
 		return res
@@ -72,7 +162,8 @@ func exec(c px.Context, op string, args []sx.Sexp) core.Result {
 			return r.Result("n/a", nt)
 		}
 		if asg && instB && !instA {
-			return r.Result("FAIL "+unsoundClass(a, b, v)+" B is assignable to A, V is an instance of B but not of A", true)
+			ca, cb, cv := soundCulprit(r.Env, a, b, v)
+			return r.Result("FAIL "+unsoundClass(ca, cb, cv)+" B is assignable to A, V is an instance of B but not of A", true)
 		}
 		return r.Result("ok", nt)
 	case "asg":
